@@ -2948,7 +2948,7 @@ def flatten_command(cmd: T.Iterable[CommandTypes],
         elif isinstance(c, CustomTargetIndex):
             FeatureNew.single_use('CustomTargetIndex for command argument', '0.60', subproject)
             dependencies.append(c.target)
-            c, df, d = flatten_command([File.from_built_file(c.get_subdir(), c.get_filename())], subproject)
+            c, df, d = flatten_command([File.from_built_file(c.get_builddir(), c.get_filename())], subproject)
             final_cmd.extend(c)
             depend_files.extend(df)
             dependencies.extend(d)
@@ -3288,7 +3288,7 @@ class CompileTarget(BuildTarget):
     def get_generated_headers(self) -> T.List[File]:
         gen_headers: T.List[File] = []
         for dep in self.depends:
-            gen_headers += [File(True, dep.subdir, o) for o in dep.get_outputs()]
+            gen_headers += [File(True, dep.get_builddir(), o) for o in dep.get_outputs()]
         return gen_headers
 
     def is_linkable_output(self, output: str) -> bool:
